@@ -20,6 +20,18 @@ Inductive case :=
           (stream : str) (segs : list N) (cwait : bool) (ce : cend) (ut : utrig)
           (reply : str) (rseg1 whead : N) (ue : uend)
           (conn : bool) (o_up o_cl : str)
+(* "the client finishes first while the proxy still holds bytes for a slow upstream": the
+   client sends [head] (segmented by [hsegs]; the ClientHello on tcp+sni, empty otherwise) and
+   then [n] more bytes (several MiB, in segments of their own), closes; the upstream reads
+   slowly and never replies.  Only the structure comes here: [o_head] = the first bytes the
+   upstream received (up to PROXY line + head), [o_n] = how many it received in all,
+   [o_prefix] = they are a prefix of PROXY line ++ head ++ payload (compared in Go),
+   [o_clean] = its stream ended with a clean EOF rather than a reset.  The model runs on the
+   head and a short stand-in for the payload; by C09_copy_preserves_stream the copy loop
+   treats the payload uniformly, so the expected length is the stand-in's result + n - stand-in. *)
+| CBulk (k : kind) (pp is4 : bool) (caddr saddr cport sport : str)
+        (head : str) (hsegs : list N) (n : N)
+        (conn : bool) (o_head : str) (o_n : N) (o_prefix o_clean : bool)
 (* the bufio.Reader model against the real bufio.Reader: operations and (data, error kind,
    Buffered() afterwards) of each *)
 | CBufio (cap : N) (stream : str) (segs : list N) (ops : list bop) (res : list (str * N * N)).
@@ -51,7 +63,6 @@ Definition check_case (c : case) : N :=
       let spec := spec_b k pp line stream cwait ce ut reply ue o_up o_cl in
       let region :=
         if region_dyn_proxyproto k pp then Some 4
-        else if region_sni_leftover k line ss then Some 1
         else if region_ws_split k reply rseg1 then Some 3
         else if region_half_close cwait ce then Some 2
         else None in
@@ -62,6 +73,28 @@ Definition check_case (c : case) : N :=
                       && within o_cl (e_cl e) (e_cl_lo e) (e_cl_hi e) in
           verdict same spec region (e_conn e && (0 <? nlen' (e_up e)))
       | _ => verdict false spec region true      (* the code neither panics nor runs out of fuel here *)
+      end
+  | CBulk k pp is4 caddr saddr cport sport head hsegs n conn o_head o_n o_prefix o_clean =>
+      let line := proxy_line is4 caddr saddr cport sport in
+      let stand := symseq 0 (N.min n 16) in
+      let hs := match head with [] => [] | _ => split_segs head hsegs end in
+      let ss := hs ++ match stand with [] => [] | _ => [stand] end in
+      (* specification: the finisher's whole stream, then EOF (C09_finisher_fully_delivered) *)
+      let sup := spec_upstream k pp line head in
+      let spec := o_prefix && o_clean && (o_n =? nlen' sup + n) && beq o_head sup in
+      let region :=
+        if region_dyn_proxyproto k pp then Some 4
+        else None in
+      match scenario_expect k pp line ss false CClose UOnEOF [] 0 0 UStay with
+      | Ok e =>
+          let pre := firstn (length (e_up e) - length stand) (e_up e) in
+          let same := Bool.eqb conn (e_conn e)
+                      && (if e_conn e
+                          then beq o_head pre && (o_n =? nlen' pre + n) && o_prefix && o_clean
+                               && (e_up_lo e =? nlen' (e_up e))
+                          else (o_n =? 0)) in
+          verdict same spec region true
+      | _ => verdict false spec region true
       end
   | CBufio cap stream segs ops res =>
       let b := new_reader (N.to_nat cap) (split_segs stream segs) in
